@@ -30,7 +30,7 @@ var pureExternalPrefixes = []string{"fmt.", "errors.", "log.", "(*log.Logger).",
 	"math.", "strings.", "unicode.", "unicode/utf8.", "os.Getpid", "runtime.", "hash/crc32.", "context.", "math/bits.",
 	"github.com/zeebo/xxh3.", "(*pgregory.net/rand.Rand).", "pgregory.net/rand.", "(*strings.Builder).String", "path/filepath.", "reflect.TypeOf",
 	"bytes.Index", "bytes.Contains", "bytes.HasPrefix", "bytes.HasSuffix", "bytes.Compare", "bytes.LastIndex", "bytes.Count",
-	"time.Sleep", "time.After", "time.Until", "time.AfterFunc", "time.NewTimer", "time.NewTicker", "(*time.Timer).Stop", "(*time.Timer).Reset", "(*time.Ticker).Stop"}
+	"encoding/binary.ReadUvarint", "encoding/binary.ReadVarint", "time.Sleep", "time.After", "time.Until", "time.AfterFunc", "time.NewTimer", "time.NewTicker", "(*time.Timer).Stop", "(*time.Timer).Reset", "(*time.Ticker).Stop"}
 
 func (eng *Engine) isPureExternal(name string) bool {
 	for _, p := range pureExternalPrefixes {
